@@ -20,6 +20,7 @@ INVARIANT IndexIntegral
 INVARIANT IndexRow
 INVARIANT IndexCol
 INVARIANT ScoreLaw
+INVARIANT FindLatticeOK
 INVARIANT MinkSane
 INVARIANT Emit
 PROPERTY Variant
